@@ -102,7 +102,7 @@ type c18Case struct {
 	Desc     string   `json:"description"`
 }
 
-var c18Scenarios = []string{"next-to-a-third-party-import", "aliased-next-to-a-third-party-import", "after-two-third-party-packages-of-the-same-name", "plain", "prefix", "alias=last-element", "alias=real-name", "importname", "anon-then-ref", "dict-value", "file-path-ends-in-package-path", "file-path-is-last-element", "non-ascii-prefix", "non-ascii-alias", "render-then-anon-then-render", "anon-render-ref"}
+var c18Scenarios = []string{"next-to-a-third-party-import", "aliased-next-to-a-third-party-import", "after-two-third-party-packages-of-the-same-name", "plain", "prefix", "alias=last-element", "alias=real-name", "importname", "anon-then-ref", "dict-value", "file-path-ends-in-package-path", "file-path-is-last-element", "non-ascii-prefix", "non-ascii-alias", "render-then-anon-then-render", "anon-render-ref", "cgo-preamble-without-C-reference"}
 
 func lastElem(p string) string {
 	p = strings.TrimSuffix(p, "/")
@@ -148,6 +148,8 @@ func c18World(names map[string]string, paths []string, scenario string) *imp.Wor
 		w.Ref("x1/"+n, 0)
 	case "prefix":
 		w.Prefix("pkg")
+	case "cgo-preamble-without-C-reference":
+		w.CgoPreamble("#include <a.h>")
 	case "non-ascii-prefix":
 		w.Prefix("π")
 	case "non-ascii-alias":
@@ -270,7 +272,7 @@ func runC18(r *ev.Recorder) {
 		}
 	}
 	r.Rule = "every package directory below <GOROOT>/src of the installed toolchain (outside cmd, vendor, testdata; package name = the name its non-test files declare, parsed with go/parser), " +
-		"(a) alone under 16 scenarios (a non-ASCII PackagePrefix, a non-ASCII alias, render / Anon of the path / render again, Anon / render / reference; next to a third-party import, aliased next to one, after two third-party packages of the same name, plain, PackagePrefix, ImportAlias = last path element, ImportAlias = real name, truthful ImportName, Anon then reference, Anon then reference inside a Dict value, in a File whose own package path ends in the package path, in a File whose own path is the last element); " +
+		"(a) alone under 17 scenarios (in a File with a cgo preamble that never refers to C; a non-ASCII PackagePrefix, a non-ASCII alias, render / Anon of the path / render again, Anon / render / reference; next to a third-party import, aliased next to one, after two third-party packages of the same name, plain, PackagePrefix, ImportAlias = last path element, ImportAlias = real name, truthful ImportName, Anon then reference, Anon then reference inside a Dict value, in a File whose own package path ends in the package path, in a File whose own path is the last element); " +
 		"(b) every ordered pair of packages, plain, with prefix (ASCII and non-ASCII), and with the second aliased to the name of the first (pairs that share a declared or guessed name - thorough: all pairs - also inside a Dict after Anon, with aliases, Anon then reference, and next to a third-party import); every ordered triple of packages sharing a declared name; " +
 		"oracle on the parsed output: the spec of the path has no alias and the qualifier is the declared name, or has an alias equal to the qualifier; names unique; go/types resolves every reference against a fabricated importer declaring the parsed names. " +
 		"(c) the repository's gennames tool is built and run under a matrix of its flags (-standard; -novendor on/off; 6 filters incl. one that matches only vendored packages and one that matches nothing; default and explicit -package/-name): every entry equals the name parsed from that directory (GOROOT/src/vendor for vendored ones), matches the filter, is no main package; filtered tables are exactly the filter's selection of the unfiltered one; -novendor removes exactly the vendored entries. " +
